@@ -103,7 +103,7 @@ def M(mid, classes, doctypes, keys, scalars, reg=None, qtags=('seq',),
       mtags=('map',), oddkeys=(), stags=(), family='load', note='',
       qn=4, tn=None, strs=(), dump=True, rtypes=None,
       qo=4, to=5, an=None, rootk='', nodup=False, aliask=('s', 'q', 'm'),
-      cyc=True, qcap=0):
+      cyc=True, qcap=0, ckeys=False):
     names = [c['name'] for c in classes]
     return {
         'id': mid, 'classes': classes,
@@ -120,6 +120,8 @@ def M(mid, classes, doctypes, keys, scalars, reg=None, qtags=('seq',),
         'rtypes': list(doctypes if rtypes is None else rtypes),
         # minimum number of rejected documents replayed in the quick tier
         'qcap': qcap,
+        # collections may be composed in key position (`? [a] : v`)
+        'ckeys': ckeys,
     }
 
 
@@ -525,6 +527,10 @@ def models():
                          ['bool', 'abc'], ['str', 'yes'], ['int', '42'],
                          ['int', '0x1F'], ['null', '~'], ['null', 'null']],
                 family='req', qn=5, tn=5, rootk='m', rtypes=[]))
+    # collection keys next to the queried attribute (UnknownNode helpers)
+    ms.append(M('reqkeys', [], [ANY], keys=['a', 'b'],
+                scalars=[S_42, S_ABC], qtags=('seq',), mtags=('map',),
+                family='req', qn=6, tn=6, rootk='m', rtypes=[], ckeys=True))
     # an index (dict of objects that know their own key) with the documented
     # pair of seasoning helpers, items with default-value removal
     u4 = C('U4', kind='userstring')
@@ -592,6 +598,42 @@ def models():
     ms.append(M('extramid', [xm], [K('Xm')], keys=['a', 'o', 'xk'],
                 scalars=[S_42, S_7], qn=5, tn=6, qo=5, to=6, rootk='m',
                 nodup=True))
+    # ---- _yatiml_defaults (dump side only) must not reach the constructor ---------
+    yd = C('Yd', [P('n', INT), P('t', Opt(L(INT)), ['null'])],
+           ydefaults=[['t', ['list', [['int', '42']]]]])
+    ms.append(M('ydefload', [yd], [K('Yd')], keys=['n', 't'], scalars=[S_42],
+                qn=5, tn=6, rootk='m', nodup=True, dump=False, rtypes=[]))
+    # ---- siblings and their base in one document, one of them with a hook ---------
+    sb = C('Sb', [P('a', INT)])
+    s1 = C('S1', [P('b', INT)], bases=['Sb'],
+           sav=['set_attr', 'k', 'str', 'abc'])
+    ms.append(M('sibhooks', [sb, s1], [L(K('Sb'))], keys=['a', 'b'],
+                scalars=[S_42], qn=7, tn=7, rootk='q', nodup=True,
+                mtags=('map',), qtags=('seq',), rtypes=[]))
+    # ---- tagged collections in key position below Any --------------------------------
+    ik = C('Ik', [P('v', INT)])
+    ms.append(M('anykeys', [ik], [ANY], keys=['v'], scalars=[S_42],
+                mtags=('map', '!Ik'), qtags=('seq',), qn=5, tn=6,
+                rootk='m', rtypes=[], ckeys=True, dump=False))
+    # ---- a tagged value under a keyword-only parameter ---------------------------------
+    i2 = C('I2', [P('v', INT)])
+    kt = C('Kt', [P('name', STR)], kwonly=['low=1'])
+    ms.append(M('kwtag', [i2, kt], [K('Kt')], keys=['name', 'low', 'v'],
+                scalars=[S_42, S_ABC], mtags=('map', '!I2'), qn=7, tn=7,
+                rootk='m', nodup=True, qtags=(), rtypes=[], dump=False))
+    # ---- set_value() in savorize, then a value the class refuses (positions) --------
+    sw = C('Sw', kind='strlike', sav=['to_scalar', 'str', 'zz'], rejects=['zz'])
+    hw = C('Hw', [P('label', STR), P('level', K('Sw'))])
+    ms.append(M('tosc', [sw, hw], [K('Hw')], keys=['label', 'level'],
+                scalars=[S_ABC], qn=5, tn=5, rootk='m', nodup=True, qtags=(),
+                rtypes=[], dump=False))
+    # ---- a recogniser that requires an attribute of a class type, two levels ----------
+    i3 = C('I3', [P('v', INT)])
+    m3 = C('M3', [P('i', K('I3'))])
+    t3 = C('T3', [P('m', K('M3'))], recog=['require_attr_type', 'm', K('M3')])
+    ms.append(M('reqnest', [i3, m3, t3], [K('T3')], keys=['m', 'i', 'v'],
+                scalars=[S_42], qn=7, tn=7, rootk='m', nodup=True, qtags=(),
+                rtypes=[], dump=False))
     # ---- Path and date attributes of a class (round 6) -------------------------
     pdc = C('Pd', [P('p', PATH), P('d', DATE), P('o', Opt(PATH), ['null'])])
     ms.append(M('pathdate', [pdc], [K('Pd')], rtypes=[K('Pd'), L(K('Pd'))], keys=['p', 'd', 'o'],
